@@ -78,6 +78,10 @@ def run(ctx: Ctx) -> None:  # noqa: C901, PLR0912, PLR0915
                        "the archive is the real CoverageArchive created empty as for DynaMOSA",
                        "modules whose instrumentation itself raises (C06 finding: dead-code cycle) are "
                        "counted and skipped"]
+    import time  # noqa: PLC0415
+
+    phase = ctx.notes.setdefault("phase_wall_s", {})
+    t0 = time.time()
     ctx.design("GoalsManager", "GoalsManager.cfg", workers=2)
     if not ctx.quick:
         ctx.design("GoalsManager", "GoalsManager_thorough.cfg", workers=2)
@@ -86,8 +90,11 @@ def run(ctx: Ctx) -> None:  # noqa: C901, PLR0912, PLR0915
         "GoalsManager_hazard.cfg (goal graphs with goals not reachable from the roots): TLC "
         + ("finds Complete violated, i.e. the manager cannot recover from a structurally unreachable goal"
            if hz.violations else "finds no violation (unexpected)"))
-    ctx.design("Graphs", "Graphs.cfg", workers=2)
+    if not ctx.quick:
+        ctx.design("Graphs", "Graphs.cfg", workers=2)   # theorem GoalsReachable (also part of C06)
 
+    phase["design"] = round(time.time() - t0, 1)
+    t0 = time.time()
     rng = ctx.rng("corpus")
     work = ctx.work / "corpus"
     work.mkdir(parents=True, exist_ok=True)
@@ -126,6 +133,9 @@ def run(ctx: Ctx) -> None:  # noqa: C901, PLR0912, PLR0915
     ctx.notes["goal_graphs_with_exclusions"] = sum(1 for e in events if e["tag"] != "plain")
     ctx.notes["goals_total"] = sum(len(e["goals"]) for e in events)
 
+    phase["instrument+export"] = round(time.time() - t0, 1)
+    t0 = time.time()
+
     def slim(e):
         return {k: e[k] for k in e if k not in ("src",)}
 
@@ -146,8 +156,10 @@ def run(ctx: Ctx) -> None:  # noqa: C901, PLR0912, PLR0915
                     f"err={ev['err']!r} goals={ev['goals']} roots={ev['roots']} edges={ev['gedges']}",
                     trace={"ev": [slim(ev)]}, behaviour=ev)
 
+    phase["validate-structure"] = round(time.time() - t0, 1)
+    t0 = time.time()
     # ---- dynamic part: coverage orders drawn by TLC on the real goal graphs
-    usable = [i for i, e in enumerate(events) if e["built"] and 0 < len(e["goals"]) <= 120]
+    usable = [i for i, e in enumerate(events) if e["built"] and 0 < len(e["goals"]) <= (60 if ctx.quick else 120)]
     gfile = ctx.work / "goalgraphs.ndjson"
     with gfile.open("w") as f:
         for i in usable:
@@ -156,7 +168,7 @@ def run(ctx: Ctx) -> None:  # noqa: C901, PLR0912, PLR0915
     dyn_traces, dyn_src = [], []
     if usable:
         sims = ctx.simulate("MC_GoalsManager", "MC_GoalsManager_sim.cfg",
-                            num=300 if ctx.quick else 4000, depth=140, env={"GRAPHS_FILE": str(gfile)})
+                            num=150 if ctx.quick else 3000, depth=90 if ctx.quick else 240, env={"GRAPHS_FILE": str(gfile)})
         seen = set()
         for st in sims:
             gi = st["gi"]
@@ -169,7 +181,7 @@ def run(ctx: Ctx) -> None:  # noqa: C901, PLR0912, PLR0915
             sp, order = keep[i]
             tr = ad.step_goals_manager(sp, order, hist)
             e = events[i]
-            tr.update(n=len(e["goals"]), roots=e["roots"], edges=e["gedges"])
+            tr.update(n=len(e["goals"]), roots=e["roots"], edges=e["gedges"], goals=e["goals"], cos=e["cos"])
             dyn_traces.append(tr)
             dyn_src.append((i, hist))
             ctx.nontriv(("order", gi, json.dumps(hist)))
@@ -179,7 +191,7 @@ def run(ctx: Ctx) -> None:  # noqa: C901, PLR0912, PLR0915
             e = events[i]
             hist = first_current_order(ad, sp, order, len(e["goals"]))
             tr = ad.step_goals_manager(sp, order, hist)
-            tr.update(n=len(e["goals"]), roots=e["roots"], edges=e["gedges"])
+            tr.update(n=len(e["goals"]), roots=e["roots"], edges=e["gedges"], goals=e["goals"], cos=e["cos"])
             dyn_traces.append(tr)
             dyn_src.append((i, hist))
         ctx.notes["coverage_orders_replayed"] = len(dyn_traces)
@@ -197,6 +209,7 @@ def run(ctx: Ctx) -> None:  # noqa: C901, PLR0912, PLR0915
                         f"{hist[:max(step - 1, 0)]} the manager is in {dyn_traces[idx]['ev'][max(step - 1, 0)]}",
                         trace=dyn_traces[idx],
                         behaviour={"event": ev, "hist": hist})
+    phase["orders+replay+validate"] = round(time.time() - t0, 1)
     ctx.evaluations = len(events) + len(dyn_traces)
     ctx.exhaustive = False
     for e in events[:2]:
@@ -240,7 +253,7 @@ def replay(ctx: Ctx, rec: dict) -> int:
     bad = dict(ctx.validate("GraphsTrace", [{"ev": [ev2]}], cfg="GraphsTrace_C07.cfg"))
     if "hist" in beh:
         tr = ad.step_goals_manager(sp, order, beh["hist"])
-        tr.update(n=len(ev2["goals"]), roots=ev2["roots"], edges=ev2["gedges"])
+        tr.update(n=len(ev2["goals"]), roots=ev2["roots"], edges=ev2["gedges"], goals=ev2["goals"], cos=ev2["cos"])
         bad.update({f"dyn{k}": v for k, v in ctx.validate("GoalsManagerTrace", [tr]).items()})
     bad = {k: [c for c in v if c[0] not in DRIFT_CLAUSES] for k, v in bad.items()}
     bad = {k: v for k, v in bad.items() if v}
